@@ -14,6 +14,18 @@ from math import floor
 
 DEFAULT_DIVISIONS = (1, 2, 3, 4, 5, 6, 7, 8, 9, 12, 16, 32, 64, 96)
 
+_BIG = 10**60
+_Q = 10**40
+
+
+def q(x: F) -> F:
+    """Keep rationals cheap: a value whose denominator exceeds 1e60 (hundreds of
+    chained tempo changes with long decimal bpms) is rounded to a multiple of
+    1e-40 — 34 orders of magnitude below every tolerance used."""
+    if x.denominator > _BIG:
+        return F(round(x * _Q), _Q)
+    return x
+
 
 class RefTiming:
     def __init__(self, initial_offset, changes, anchors=None):
@@ -29,7 +41,7 @@ class RefTiming:
         for (m0, b0, v0, t0), (m1, b1, v1, t1) in zip(ch, ch[1:]):
             d = (m1 - m0) * t0 + (b1 - b0)
             self.abs.append(self.abs[-1] + d)
-            self.ms.append(self.ms[-1] + d * 60000 / v0)
+            self.ms.append(q(self.ms[-1] + d * 60000 / v0))
         if anchors is not None:
             self.ms = [F(anchors[i]) for i in order]
         self._keys = [(c[0], c[1]) for c in ch]
@@ -94,7 +106,7 @@ class RefBeats:
         self.ch = ch
         self.ms = [F(initial_offset)]
         for (b0, v0), (b1, v1) in zip(ch, ch[1:]):
-            self.ms.append(self.ms[-1] + (b1 - b0) * 60000 / v0)
+            self.ms.append(q(self.ms[-1] + (b1 - b0) * 60000 / v0))
         self._beats = [c[0] for c in ch]
 
     def ms_of_beat(self, beat):
